@@ -209,6 +209,9 @@ func ParseSliceHeader(nalu []byte, spsMap map[uint32]*SPS, ppsMap map[uint32]*PP
 					return sh, fmt.Errorf("short_term_ref_pic_set_idx > num_short_term_ref_pic_sets")
 				}
 				sh.ShortTermRefPicSet = sps.ShortTermRefPicSets[sh.ShortTermRefPicSetIdx]
+			} else if len(sps.ShortTermRefPicSets) == 1 {
+				// short_term_ref_pic_set_idx is not coded and inferred to be 0 (7.4.7.1)
+				sh.ShortTermRefPicSet = sps.ShortTermRefPicSets[0]
 			}
 			NumPicTotalCurr += sh.ShortTermRefPicSet.countInUsePics()
 
